@@ -5,6 +5,7 @@
   `restrictCore` adds the allowed sets, `restrict` is the whole call including level merging (keepStructure).
 -/
 import Hw.Topo.RestrictLemmas
+import Hw.Topo.RenderLemmas
 namespace Hw.Props.C08
 open Hw.Topo Hw.Topo.Restrict Hw.Gen.Restrict
 
@@ -25,7 +26,7 @@ theorem C08_einval_unchanged (t : Topo) (s : CSet) (flags : Nat) (h : (restrict 
 /-- … and EINVAL is returned in each of the documented situations: unknown flag bits, REMOVE_CPULESS with BYNODESET,
     REMOVE_MEMLESS without BYNODESET, a set that does not intersect the allowed cpuset (nodeset with BYNODESET) -/
 theorem C08_einval_cases (t : Topo) (s : CSet) (flags : Nat)
-    (h : andnot flags allFlags ≠ 0 ∨
+    (h : Restrict.andnot flags allFlags ≠ 0 ∨
          (hasFlag flags flagByNodeset = true ∧ hasFlag flags flagRemoveCpuless = true) ∨
          (hasFlag flags flagByNodeset = false ∧ hasFlag flags flagRemoveMemless = true) ∨
          (hasFlag flags flagByNodeset = false ∧ meets t.allowedCpu s = false) ∨
@@ -250,6 +251,97 @@ example : okT demoMerge.tree = true ∧ (restrict demoMerge ⟨1, false⟩ (flag
     (objsT (restrict demoMerge ⟨1, false⟩ (flagByNodeset ||| flagRemoveMemless)).1.tree).map (fun o => (o.gp, o.ccpuset))
       = [(1, 3), (3, 3), (4, 1), (5, 3)] ∧
     okT (restrict demoMerge ⟨1, false⟩ (flagByNodeset ||| flagRemoveMemless)).1.tree = true := by decide +kernel
+
+/-! ### links and levels: what hwloc_connect_children computes, for every tree -/
+
+/-- the link clauses of C01 well-formedness (lean/Hw/Topo/WF.lean) proved for `render t` for ALL typed trees `t`, all headers
+    and all carried fields.  `render` (lean/Hw/Topo/Render.lean) is tied to hwloc_connect_children / hwloc_connect_levels /
+    hwloc_connect_special_levels by the engine `restrict`: on every BEFORE and AFTER dump of every run the rendered dump must
+    equal the real dump as a whole.
+    Proved: id-is-position, root-or-parent, parent-kind, normal-child-slot, children-array, special-list-heads,
+            special-list-links, no-children-where-forbidden (here); depth-by-type, depth-increases, in-its-level (incl. both cousin
+            links), nobjs, levels-listed, level-entries-valid, levels-in-tree-order, normal-levels-nonempty, depth-le-objects,
+            level0-is-root (for a Machine root) (C08_render_levels, which also needs the root to be a normal object).
+    NOT proved (still judged by the oracle wfCheck on every AFTER dump): children-counts (the mkAux fold),
+            and the topology-level clauses levels-cover-objects, normal-level-types, type-depth-inverse, level0-is-root, pu-level-deepest, numa-exists, root-is-machine,
+            machine-only-at-root; and every clause about sets / memory / attributes that is not a link (sets-presence,
+            cpuset-is-disjoint-union-of-children, memory-child-shares-cpuset, memcache-nodeset, nodeset-decomposition,
+            pu-allowed, numa-allowed, total-memory, cache-attrs, group-depth, siblings-ordered, *-unique, allowed-sets,
+            not-filtered-out, type-in-range). -/
+theorem C08_render_links (t : Tree) (ht : typedT t = true) (h : Hdr) (ex : RObj → Extra) (o : Obj)
+    (ho : o ∈ (render t h ex).objs) :
+    objClause "id-is-position" (render t h ex) (mkAux (render t h ex)) o = true ∧
+    objClause "root-or-parent" (render t h ex) (mkAux (render t h ex)) o = true ∧
+    objClause "parent-kind" (render t h ex) (mkAux (render t h ex)) o = true ∧
+    objClause "normal-child-slot" (render t h ex) (mkAux (render t h ex)) o = true ∧
+    objClause "children-array" (render t h ex) (mkAux (render t h ex)) o = true ∧
+    objClause "special-list-heads" (render t h ex) (mkAux (render t h ex)) o = true ∧
+    objClause "special-list-links" (render t h ex) (mkAux (render t h ex)) o = true ∧
+    objClause "no-children-where-forbidden" (render t h ex) (mkAux (render t h ex)) o = true :=
+  ⟨render_id_is_position t h ex o ho, render_root_or_parent t ht h ex o ho, render_parent_kind t ht h ex o ho,
+   render_normal_child_slot t ht h ex o ho, render_children_array t ht h ex o ho, render_special_list_heads t ht h ex o ho,
+   render_special_list_links t ht h ex o ho, render_no_children_where_forbidden t ht h ex o ho⟩
+
+/-- the level clauses proved for `render t` for ALL typed trees whose root is a normal object: every object has the depth of
+    its kind (special depth, or the index of a normal level, strictly larger than its parent's), sits in the level of its depth at its logical index with the
+    level's type and with prev/next cousin = its neighbours in that level (hwloc_connect_levels puts every normal object into
+    exactly one level: `connectLevels_perm`), all levels 0..depth-1 and the six special levels are listed, every entry of
+    every level is an object with that depth and that logical index, every level lists its objects in the DFS order of the
+    tree, nobjs is the number of objects -/
+theorem C08_render_levels (t : Tree) (ht : typedT t = true) (hr : isNormal t.obj.type = true) (h : Hdr) (ex : RObj → Extra) :
+    (∀ o ∈ (render t h ex).objs,
+      objClause "depth-by-type" (render t h ex) (mkAux (render t h ex)) o = true ∧
+      objClause "depth-increases" (render t h ex) (mkAux (render t h ex)) o = true ∧
+      objClause "in-its-level" (render t h ex) (mkAux (render t h ex)) o = true) ∧
+    topClause "nobjs" (render t h ex) (mkAux (render t h ex)) = true ∧
+    topClause "levels-listed" (render t h ex) (mkAux (render t h ex)) = true ∧
+    topClause "level-entries-valid" (render t h ex) (mkAux (render t h ex)) = true ∧
+    topClause "levels-in-tree-order" (render t h ex) (mkAux (render t h ex)) = true ∧
+    topClause "normal-levels-nonempty" (render t h ex) (mkAux (render t h ex)) = true ∧
+    topClause "depth-le-objects" (render t h ex) (mkAux (render t h ex)) = true ∧
+    (t.obj.type = tMACHINE → topClause "level0-is-root" (render t h ex) (mkAux (render t h ex)) = true) :=
+  ⟨fun o ho => ⟨render_depth_by_type t ht hr h ex o ho, render_depth_increases t ht hr h ex o ho,
+     render_in_its_level t ht hr h ex o ho⟩,
+   render_nobjs t h ex, render_levels_listed t h ex, render_level_entries_valid t ht hr h ex,
+   render_levels_in_tree_order t h ex, render_normal_levels_nonempty t h ex, render_depth_le_objects t h ex,
+   fun hm => render_level0_is_root t hm h ex⟩
+
+/-- the topology after ANY restrict call, as a dump: the rendering of the model's tree with the new allowed sets -/
+def afterDump (t : Topo) (flagsT : Nat) (s : CSet) (flags : Nat) (ex : RObj → Extra) : Dump :=
+  render (restrict t s flags).1.tree
+    ⟨flagsT, (restrict t s flags).1.filters, some (restrict t s flags).1.allowedCpu, some (restrict t s flags).1.allowedNode⟩ ex
+
+/-- C08_restrict_links: for every input topology, set and flag word, the topology after the call (= `afterDump`, checked equal
+    to hwloc's AFTER dump on every call of every run) satisfies the link clauses above, provided the resulting tree is typed
+    (`typedT`, evaluated by the driver on every BEFORE and AFTER tree; preservation of the typing by the tree recursion and by
+    level merging is not proved) -/
+theorem C08_restrict_links (t : Topo) (flagsT : Nat) (s : CSet) (flags : Nat) (ex : RObj → Extra)
+    (ht : typedT (restrict t s flags).1.tree = true) (o : Obj) (ho : o ∈ (afterDump t flagsT s flags ex).objs) :
+    objClause "id-is-position" (afterDump t flagsT s flags ex) (mkAux (afterDump t flagsT s flags ex)) o = true ∧
+    objClause "root-or-parent" (afterDump t flagsT s flags ex) (mkAux (afterDump t flagsT s flags ex)) o = true ∧
+    objClause "parent-kind" (afterDump t flagsT s flags ex) (mkAux (afterDump t flagsT s flags ex)) o = true ∧
+    objClause "normal-child-slot" (afterDump t flagsT s flags ex) (mkAux (afterDump t flagsT s flags ex)) o = true ∧
+    objClause "children-array" (afterDump t flagsT s flags ex) (mkAux (afterDump t flagsT s flags ex)) o = true ∧
+    objClause "special-list-heads" (afterDump t flagsT s flags ex) (mkAux (afterDump t flagsT s flags ex)) o = true ∧
+    objClause "special-list-links" (afterDump t flagsT s flags ex) (mkAux (afterDump t flagsT s flags ex)) o = true ∧
+    objClause "no-children-where-forbidden" (afterDump t flagsT s flags ex) (mkAux (afterDump t flagsT s flags ex)) o = true :=
+  C08_render_links _ ht _ ex o ho
+
+/-- … and the level clauses of C08_render_levels when moreover the root of the resulting tree is a normal object -/
+theorem C08_restrict_levels (t : Topo) (flagsT : Nat) (s : CSet) (flags : Nat) (ex : RObj → Extra)
+    (ht : typedT (restrict t s flags).1.tree = true) (hr : isNormal (restrict t s flags).1.tree.obj.type = true) :
+    (∀ o ∈ (afterDump t flagsT s flags ex).objs,
+      objClause "depth-by-type" (afterDump t flagsT s flags ex) (mkAux (afterDump t flagsT s flags ex)) o = true ∧
+      objClause "depth-increases" (afterDump t flagsT s flags ex) (mkAux (afterDump t flagsT s flags ex)) o = true ∧
+      objClause "in-its-level" (afterDump t flagsT s flags ex) (mkAux (afterDump t flagsT s flags ex)) o = true) ∧
+    topClause "nobjs" (afterDump t flagsT s flags ex) (mkAux (afterDump t flagsT s flags ex)) = true ∧
+    topClause "levels-listed" (afterDump t flagsT s flags ex) (mkAux (afterDump t flagsT s flags ex)) = true ∧
+    topClause "level-entries-valid" (afterDump t flagsT s flags ex) (mkAux (afterDump t flagsT s flags ex)) = true ∧
+    topClause "levels-in-tree-order" (afterDump t flagsT s flags ex) (mkAux (afterDump t flagsT s flags ex)) = true ∧
+    topClause "normal-levels-nonempty" (afterDump t flagsT s flags ex) (mkAux (afterDump t flagsT s flags ex)) = true ∧
+    topClause "depth-le-objects" (afterDump t flagsT s flags ex) (mkAux (afterDump t flagsT s flags ex)) = true ∧
+    ((restrict t s flags).1.tree.obj.type = tMACHINE → topClause "level0-is-root" (afterDump t flagsT s flags ex) (mkAux (afterDump t flagsT s flags ex)) = true) :=
+  C08_render_levels _ ht hr _ ex
 
 /-! ### histories -/
 
